@@ -8,8 +8,12 @@ Protocol (one op per line; the first line of a case is `cfg`):
   use k                                                  select slot k; an empty slot is constructed now with the case's cfg
                                                           (several lifecycles alive at once share the clock and nothing else)
   start | tick c | err | hb | timeouts | renew n|none r | apo | term | rst | adv us      (`rst` = Telomere.reset(); the word `reset` separates cases)
+  tickd | tickk c | renewd | renewk n|none r | apor      the same methods through their other call forms: tick(), tick(cost=c),
+                                                          renew(), renew(reset_errors=r, amount=n), trigger_apoptosis(reason="x")
+  set thr n | set allow 0|1 | set life q|none | set idle q|none    a public configuration attribute is re-assigned on the live
+                                                          lifecycle (search/correspondence only: outside the quantifier)
 Observation after each op:
-  ret phase length errors ops renewals reason age [callback events] lockTrace
+  ret phase length errors ops renewals reason age [callback events] lockTrace is_operational is_active time_remaining ops_remaining
 `hang` when the call never returns (afterwards the object is abandoned: `dead`).
 """
 from __future__ import annotations
@@ -90,7 +94,7 @@ class C09(Prop):
         "tick:senescent", "tick:senescent-depleted", "err:threshold", "err:threshold-noop", "err:rate", "err:rate-noop",
         "err:ok", "hb", "timeouts:inactive", "timeouts:lifetime", "timeouts:idle", "timeouts:ok", "renew:disallowed",
         "renew:terminated", "renew:recover", "renew:extend", "apo:terminated", "apo:go", "term", "reset", "adv",
-        "new", "use:old", "use:fresh"]
+        "new", "use:old", "use:fresh", "set"]
     assumptions = [
         "tick cost and renew amount are natural numbers (a negative cost/amount is outside the property's quantifier)",
         "on_phase_change / on_senescence callbacks return; they do not call back into the lifecycle",
@@ -174,9 +178,9 @@ class C09(Prop):
         for v, unit in ((l, LIFE_UNIT), (i, IDLE_UNIT)):
             if v not in ("none", "0"):
                 lims.append(int(v) * unit)
-        prof = rng.choice(["mixed", "mixed", "long", "errors", "time", "early", "resets", "multi", "multi"])
+        prof = rng.choice(["mixed", "mixed", "long", "errors", "time", "early", "resets", "multi", "multi", "reconf"])
         w = {"start": 2, "tick": 8, "err": 3, "hb": 1, "timeouts": 3, "renew": 3, "apo": 1, "term": 1, "rst": 1, "adv": 3,
-             "use": 0, "new": 0}
+             "use": 0, "new": 0, "set": 0.4}
         if prof == "long":
             w.update(tick=16, apo=0.2, term=0.2, rst=0.3)
         elif prof == "errors":
@@ -188,6 +192,9 @@ class C09(Prop):
         elif prof == "resets":
             # several resets on one lifecycle with activity in between: each epoch is judged on its own counts
             w.update(rst=5, tick=10, err=6, renew=2, start=2, apo=0.5, term=0.5, timeouts=1, adv=1, new=1, use=1)
+        elif prof == "reconf":
+            # public configuration attributes re-assigned on the live lifecycle
+            w.update(set=7, err=5, renew=5, timeouts=4, adv=4, tick=8)
         elif prof == "multi":
             # several lifecycles alive at once, interleaved; fresh ones constructed after the others were used
             w.update(use=7, new=2, rst=3, tick=9, err=6, renew=3, apo=0.4, term=0.4, timeouts=1.5, adv=1.5)
@@ -206,10 +213,31 @@ class C09(Prop):
                 c = rng.choice([1, 1, 1, 1, 1, 0, 2, 3, max(mm - 1, 0), mm, mm + 1])
                 if unit_bias and rng.random() < 0.8:
                     c = 1
-                lines.append(f"tick {c}")
+                form = rng.random()
+                lines.append(f"tick {c}" if form > 0.15 else "tickd" if c == 1 else f"tickk {c}")
             elif op == "renew":
                 amt = rng.choice(["none", "none", "0", "1", "2", "5", str(mm), str(mm + 3)])
-                lines.append(f"renew {amt} {rng.choice([0, 1])}")
+                r_ = rng.choice([0, 1])
+                form = rng.random()
+                lines.append(f"renew {amt} {r_}" if form > 0.15 else "renewd" if (amt, r_) == ("none", 1)
+                             else f"renewk {amt} {r_}")
+            elif op == "apo":
+                lines.append("apo" if rng.random() > 0.3 else "apor")
+            elif op == "set":
+                what = rng.choice(["thr", "thr", "allow", "allow", "life", "idle"])
+                if what == "thr":
+                    v = rng.choice([0, 1, 2, 3, 4, 100])
+                elif what == "allow":
+                    v = rng.choice([0, 1])
+                elif what == "life":
+                    v = rng.choice(["none", 0, 1, 2, 4])
+                    if v not in ("none", 0):
+                        lims.append(v * LIFE_UNIT)
+                else:
+                    v = rng.choice(["none", 0, 1, 4, 40])
+                    if v not in ("none", 0):
+                        lims.append(v * IDLE_UNIT)
+                lines.append(f"set {what} {v}")
             elif op == "adv":
                 opts = [1, 1000, 60_000_000]
                 for lim in lims:
@@ -236,7 +264,7 @@ class C09(Prop):
 
     def generate(self, rng, tier, n):
         bad = ["tick", "tick -1", "tick x", "renew", "renew -3 1", "adv -5", "frobnicate", "renew 1", "tick 1 2", "use",
-               "use x", "new 1", "use -1"]
+               "use x", "new 1", "use -1", "set", "set thr", "set foo 1", "set allow x", "tickk", "renewk 1"]
         for k in range(n):
             c = self._rand_case(rng)
             if k % 40 == 39:       # small malformed stream: both sides must answer bad-op and carry on
@@ -287,9 +315,19 @@ class C09(Prop):
         return " ".join([PH.get(obj.get_phase().value, "?"), str(st.telomere_length), str(stats["error_count"]),
                          str(stats["operations_count"]), str(stats["renewal_count"]), reason, us])
 
+    def _accessors(self, obj):
+        st = obj.get_status()
+        tr = st.time_remaining
+        b = lambda v: "1" if v is True else "0" if v is False else "?"
+        return " ".join([b(obj.is_operational()), b(obj.is_active()),
+                         "-" if tr is None else str(tr // self.T.timedelta(microseconds=1)), str(st.operations_remaining)])
+
+    def _obs2(self, obj):
+        return self._observe(obj), self._accessors(obj)
+
     def _first_obs(self, obj):
-        k2, v2 = call_guarded(lambda: self._observe(obj))
-        return f"- {v2} [] -" if k2 == "ok" else ("hang" if k2 == "hang" else f"raise:{type(v2).__name__}")
+        k2, v2 = call_guarded(lambda: self._obs2(obj))
+        return f"- {v2[0]} [] - {v2[1]}" if k2 == "ok" else ("hang" if k2 == "hang" else f"raise:{type(v2).__name__}")
 
     def run_impl(self, case):
         obs = []
@@ -353,6 +391,23 @@ class C09(Prop):
                 fn = lambda: obj.terminate()
             elif t == ["rst"]:
                 fn = lambda: obj.reset()
+            elif t == ["tickd"]:
+                fn = lambda: obj.tick()
+            elif len(t) == 2 and t[0] == "tickk" and _num(t[1]) is not None:
+                fn = lambda: obj.tick(cost=int(t[1]))
+            elif t == ["renewd"]:
+                fn = lambda: obj.renew()
+            elif len(t) == 3 and t[0] == "renewk" and (t[1] == "none" or _num(t[1]) is not None):
+                fn = lambda: obj.renew(reset_errors=t[2] in ("1", "true", "True"), amount=None if t[1] == "none" else int(t[1]))
+            elif t == ["apor"]:
+                fn = lambda: obj.trigger_apoptosis(reason="requested")
+            elif len(t) == 3 and t[0] == "set" and t[1] in ("thr", "allow") and _num(t[2]) is not None:
+                fn = ((lambda: setattr(obj, "error_threshold", int(t[2]))) if t[1] == "thr"
+                      else (lambda: setattr(obj, "allow_renewal", t[2] == "1")))
+            elif len(t) == 3 and t[0] == "set" and t[1] in ("life", "idle") and (t[2] == "none" or _num(t[2]) is not None):
+                td = self.T.timedelta
+                val_ = None if t[2] == "none" else (td(hours=int(t[2]) / 4) if t[1] == "life" else td(minutes=int(t[2]) / 4))
+                fn = lambda: setattr(obj, "max_lifetime" if t[1] == "life" else "idle_timeout", val_)
             elif len(t) == 2 and t[0] == "adv" and _num(t[1]) is not None:
                 fn = lambda: self.clock.advance_us(int(t[1]))
             if fn is None:
@@ -364,7 +419,7 @@ class C09(Prop):
             del evs[:]
             del lock.events[:]
             # the call and the read-back of the observable state run in ONE watchdog-supervised thread
-            kind, val = call_guarded(lambda: (fn(), self._observe(obj)), timeout=self.watchdog_s)
+            kind, val = call_guarded(lambda: (fn(), self._obs2(obj)), timeout=self.watchdog_s)
             if kind == "hang":
                 self.watchdog_hangs = getattr(self, "watchdog_hangs", 0) + 1
                 self.watchdog_s = 0.25 if self.watchdog_hangs < 20 else 0.1
@@ -377,7 +432,7 @@ class C09(Prop):
                 continue
             val, v2 = val
             ret = "-" if val is None else ("1" if val is True else "0" if val is False else f"?{val!r}")
-            obs.append(f"{ret} {v2} [{','.join(evs)}] {''.join(lock.events) or '-'}")
+            obs.append(f"{ret} {v2[0]} [{','.join(evs)}] {''.join(lock.events) or '-'} {v2[1]}")
         return obs, None
 
     # --- oracle: the property text on what the real code did ----------------------------------------------------
@@ -455,6 +510,39 @@ class C09(Prop):
             if phase is None:
                 continue
             op = t[0]
+            # the other call forms of the same methods
+            if op == "tickd":
+                op, t = "tick", ["tick", "1"]            # "tick(cost=1)": a bare tick is a unit tick
+            elif op == "tickk":
+                op, t = "tick", ["tick", t[1]]
+            elif op == "renewd":
+                op, t = "renew", ["renew", "none", "1"]
+            elif op == "renewk":
+                op, t = "renew", ["renew", t[1], t[2]]
+            elif op == "apor":
+                op, t = "apo", ["apo"]
+            # ---- the accessors tell the same story as get_phase() / get_status()
+            if len(f) >= 14:
+                if (f[11] == "1") != (ph == "A") or f[11] not in ("0", "1"):
+                    V("tick_true_iff_active_after", f"is_active() == (phase is ACTIVE) [phase {ph}]", f[11], i)
+                if (f[10] == "0") != (ph in ("P", "T")) or f[10] not in ("0", "1"):
+                    V("dead_never_ticks", f"is_operational() is False exactly when APOPTOTIC/TERMINATED [phase {ph}]", f[10], i)
+                if f[13] != f[2]:
+                    V("length_in_bounds", f"operations_remaining == remaining length {ln}", f[13], i)
+            if op == "set":
+                # a public configuration attribute re-assigned on the live lifecycle: later calls are judged by the new value
+                if t[1] == "thr":
+                    r["thr"] = int(t[2])
+                elif t[1] == "allow":
+                    r["allow"] = t[2] == "1"
+                elif t[1] == "life":
+                    r["life"] = None if t[2] in ("none", "0") else int(t[2]) * LIFE_UNIT
+                elif t[1] == "idle":
+                    r["idle"] = None if t[2] in ("none", "0") else int(t[2]) * IDLE_UNIT
+                if ph != phase or ln != length:
+                    V("legal_transitions", f"phase {phase}, length {length}: no method was called", f"{ph}, {ln} at {line!r}", i)
+                r["phase"], r["length"] = ph, ln
+                continue
             if op == "use":
                 # nothing was called on this lifecycle since it was last observed (only on others)
                 if ph != phase:
